@@ -116,6 +116,23 @@ Definition stmt_soc_sparse_expansion : Prop :=
           (rmap2 (fun vi ui => - e2 * vi * p - e2 * ui * q) (sp_v sp) (sp_u sp))
     = map Ropp (soc_mul_Hs OpsR (w0 :: w1) eta x).
 
+(** set_identity_scaling: afterwards w = e, η = 1, mul_W = mul_Winv = mul_Hs = identity, and the
+    sparse KKT block  Hd∘x + η²((u·x)u − (v·x)v)  (auxiliary variables eliminated) is the identity
+    too — whatever scaling the cone held before *)
+Definition sparse_op (Hd u v : list R) (eta : R) (x : list R) : list R :=
+  rmap2 Rplus (rmap2 Rmult Hd x)
+        (rmap2 (fun ui vi => eta * eta * (rdot u x * ui - rdot v x * vi)) u v).
+Definition stmt_soc_identity_scaling : Prop :=
+  forall prev x y, (1 <= length x)%nat -> length x = length (sc_w prev) -> length y = length x ->
+    let sc := soc_set_identity_scaling OpsR prev in
+    soc_normalised (sc_w sc) /\ sc_eta sc = 1 /\
+    soc_mul_W OpsR (sc_w sc) (sc_eta sc) x 1 0 y = x /\
+    soc_mul_Winv OpsR (sc_w sc) (sc_eta sc) x 1 0 y = x /\
+    soc_mul_Hs OpsR (sc_w sc) (sc_eta sc) x = x /\
+    (forall sp, sc_sparse sc = Some sp ->
+       sparse_op (soc_get_Hs_sparse OpsR (length x) (sc_eta sc) (sp_d sp)) (sp_u sp) (sp_v sp)
+                 (sc_eta sc) x = x).
+
 (** ** second-order cone, update_scaling level *)
 (** FULL statement (proved: [C13_soc_nt_identities]; also checked numerically on every run by [p_soc_nt]):
     for interior s, z the computed (w, η, λ) satisfy W z = λ = W⁻¹ s *)
